@@ -343,7 +343,11 @@ bool Exec<Cfg>::run_real(Op const& op) {
 				OpScope     s;
 				if(op.kind == O_VSWAP) {
 					if(op.var == 0) std::move(dv).swap(std::move(sv));
-					else swap(std::move(dv), std::move(sv));
+					else if(op.var == 1) swap(std::move(dv), std::move(sv));
+					else {  // two named views, the idiomatic call
+						using std::swap;
+						swap(dv, sv);
+					}
 				} else {
 					switch(op.var) {
 					case 0: dv = csv; break;
